@@ -8,6 +8,7 @@ Import ListNotations.
 Theorem C11_general : forall L L', fsound_ok L' -> (fl_hd L' = false -> neg_flips_t (s_t (fl_S L')) = true) ->
   sub_sem (fl_S L) (fl_S L') = true -> frame_sub L L' = true ->
   forall t prems concl,
+    forallb (interp (fl_S L')) (concl :: prems) = true ->    (* the argument is in L''s vocabulary *)
     gcheck L' t (trunk (fl_hd L') 0 prems concl) [] = true -> gall_closed t = true ->
     forall M, model_ok L M -> forall u, ~ fcountermodel (fl_S L) M u prems concl.
 Proof. exact extension_sound. Qed.
@@ -15,6 +16,6 @@ Print Assumptions C11_general.
 
 (* evaluation in the weaker logic coincides with evaluation in the extension on the extension's models *)
 Theorem C11_same_evaluation : forall S S' M, sub_sem S S' = true -> model_wf S M ->
-  forall s w env, eval S' M w env s = eval S M w env s.
+  forall s, interp S' s = true -> forall w env, eval S' M w env s = eval S M w env s.
 Proof. exact eval_sub. Qed.
 Print Assumptions C11_same_evaluation.
